@@ -47,13 +47,15 @@ PROPS = {
             {"harness": "H_C08_iter_s", "cases": list(range(12))},
             {"harness": "H_C08_iter_q", "cases": list(range(0, 22))},
             {"harness": "H_C08_iter_big", "cases": list(range(0, 22))},
+            {"harness": "H_C08_two", "cases": list(range(0, 28))},
         ],
         "thorough": [
             {"harness": "H_C08_iter_s", "cases": list(range(12))},
             {"harness": "H_C08_iter_q", "cases": list(range(0, 38))},
             {"harness": "H_C08_iter_big", "cases": list(range(0, 38))},
+            {"harness": "H_C08_two", "cases": list(range(0, 40))},
         ],
-        "covers": {"quick": ["C08.iter.done", "C08.iter.tail-discarded", "C08.iter.record-from-tail-accepted"]},
+        "covers": {"quick": ["C08.iter.done", "C08.iter.tail-discarded", "C08.iter.record-from-tail-accepted", "C08.two.done", "C08.two.damaged-then-intact"]},
         "bounds": {"quick": "segment = header + p in {0,1} valid records + T fully symbolic tail bytes, T = 0..16; claimed record size <= 64 (exact framing) and > 64 up to 2^31+65545 (symbolic-length allocation)",
                    "thorough": "T = 0..24"},
         "assumptions": COMMON_ASSUME,
@@ -71,5 +73,33 @@ PROPS = {
                    "thorough": "tails up to 27 bytes"},
         "assumptions": COMMON_ASSUME + ["allocation accounting: bytes requested by make/append/new in executed SSA (Go runtime internals not modelled)"],
         "outside": "wall-clock and RSS of the real process (measured only in the native replay of a counterexample)",
+    },
+    "C02": {
+        "quick": [
+            {"harness": "H_C02_seq_q", "cases": list(range(9)), "scale": SC},
+            {"harness": "H_C02_meta", "cases": [0, 1, 2, 3], "chunk": 4},
+        ],
+        "thorough": [
+            {"harness": "H_C02_seq_t", "cases": list(range(9)), "scale": SC},
+            {"harness": "H_C02_meta", "cases": [0, 1, 2, 3], "chunk": 4},
+        ],
+        "covers": {"quick": ["C02.seq.done", "C02.reopen-mid-history", "C02.level>0", "C02.free-overflow-buckets-persisted", "C02.meta.done"]},
+        "bounds": {"quick": "3 keys, prefix of 3 puts + 2 symbolic steps from {put k, delete k, compact, sync, close+open}, then close+open, full comparison, another idle close+open; metadata round trips with fully symbolic field values and 0..3 free-list entries",
+                   "thorough": "4 symbolic steps"},
+        "assumptions": COMMON_ASSUME,
+        "outside": "fs.OS <-> fs.OSMMap cross reopen (needs the kernel model, see C17), gob wire format, longer histories",
+    },
+    "C15": {
+        "quick": [
+            {"harness": "H_C15_q", "cases": list(range(7)), "scale": SC},
+        ],
+        "thorough": [
+            {"harness": "H_C15_t", "cases": list(range(9)), "scale": SC},
+        ],
+        "covers": {"quick": ["C15.done", "C15.compacted", "C15.restart", "C15.compacted-after-restart", "C15.all-segments-removed"]},
+        "bounds": {"quick": "2 keys, prefix 3 puts + 3 symbolic steps from {put, delete, compact, sync, close+open}; directory listing, live-segment set and usability (Sync/Put/Delete/Close/Open) checked after every compaction and at the end",
+                   "thorough": "3 keys, 4 symbolic steps"},
+        "assumptions": COMMON_ASSUME,
+        "outside": "descriptor / mapping counts of a real process (fs.Mem handles only), growth over unbounded histories (bounded histories only), Backup after compaction (see C12)",
     },
 }
